@@ -241,7 +241,9 @@ func c14Fixed(p *ana.Prog, r *ana.Result, cp codecPair) int {
 				return false
 			}
 			pth := ana.AccessPath(st.Addr)
-			return pth == cp.decMsg+"."+lf
+			full := cp.decMsg + "." + lf
+			// the field itself, or an enclosing struct assigned as a whole
+			return pth == full || (pth != "" && strings.HasPrefix(full, pth+"."))
 		}
 		s := &ana.Search{Fn: dec, Stop: stores, Target: target}
 		if found, w := s.Run(nil); found {
